@@ -284,7 +284,6 @@ func mutate(r *vh.RNG, t *node) (string, []byte) {
 	return kind, out
 }
 
-
 // ---- schema-directed walk ------------------------------------------------------------------------------------
 
 func nilIsList(s *Sch) bool {
